@@ -210,7 +210,7 @@ del NOT_APPLICABLE['C02']
 PLAN['C06'] = {
     'level': 'other',
     'technique': 'contract-based deductive verification (Verus) of the per-tile recursion of the 2D renderer - Worker::render_tile_recurse and Worker::render_tile_pixels of fidget-raster/src/pixel.rs and the tile helpers Tile::{new, add}, TileSizesRef::{index, get, pixel_offset} of fidget-raster/src/lib.rs - on their real text, generic over the Function, with the three component properties the renderer composes (interval enclosure, simplification, bulk evaluation through the shape wrappers) as stated contracts of trusted stand-ins; bounded native contract runner (render vs per-pixel Context::eval) for the whole pipeline',
-    'level_text': 'Partial. Proved unbounded (unit raster; every tile-size list TileSizes::new accepts with root tile <= 4096, every depth, every tile position inside a root tile, every previous image content, pixel-perfect or not): after render_tile_recurse EVERY pixel of the tile holds the value of the ORIGINAL shape function at that pixel\'s sample position, or (unless pixel-perfect) a fill whose inside flag is the sign of that value, and NO pixel outside the tile is written; so skipping whole tiles on interval evidence and evaluating simplified tapes inside tiles is unobservable, given the three hypotheses below. No panic in the recursion (indices, unreachable!() arms, usize arithmetic). NOT proved: the hypotheses themselves at this call site (they are the claimed properties C03+C14, C04, C01/C02+C14, each with its own check), render_tiles (tile generation, rayon workers), Worker::new / render_tile, the assembly of root tiles into the image in render, TileSizesRef::new, the RawDistancePixel bit packing, the screen-to-world matrix: bounded contract render2d only (all of these run natively there, every pixel compared with Context::eval).',
+    'level_text': 'Partial. Proved unbounded (unit raster; every tile-size list TileSizes::new accepts with root tile <= 4096, every depth, every tile position inside a root tile, every previous image content, pixel-perfect or not): after render_tile_recurse EVERY pixel of the tile holds the value of the ORIGINAL shape function at that pixel\'s sample position, or (unless pixel-perfect) a fill whose inside flag is the sign of that value, and NO pixel outside the tile is written; so skipping whole tiles on interval evidence and evaluating simplified tapes inside tiles is unobservable, given the three hypotheses below. No panic in the recursion (indices, unreachable!() arms, usize arithmetic). Also proved (same unit, function `render` of pixel.rs with Image::{new, width, height, decode_position} of lib.rs on their real text): the assembly of the root tiles into the image - every pixel (x, y) of the returned image holds the value of the shape at (x, y) or a correctly signed fill, given that render_tiles returns one worker output per root tile of the image (stand-in with exactly the postcondition proved for the recursion at depth 0); no out-of-range image access (the two assertions of decode_position). NOT proved: the hypotheses themselves at this call site (they are the claimed properties C03+C14, C04, C01/C02+C14, each with its own check), render_tiles (tile generation, rayon workers), Worker::new / render_tile, TileSizesRef::new (iterator position), the RawDistancePixel bit packing, the screen-to-world matrix: bounded contract render2d only (all of these run natively there, every pixel compared with Context::eval).',
     'level_note': 'Trusted: Verus+Z3; the stand-ins of unit raster (ShapeTracingEval / ShapeBulkEval / RenderHandle contracts = the assumed component properties; nalgebra Point2/Vector2 as two-field structs; Image as its data vector; fill_range as a verified model of slicing + fill); six float axioms (exact and monotone usize -> f32 conversion below 2^24, order chaining, comparison operators equal their specification).',
     'legs': [leg_verus('raster'), leg_bounded('render2d')],
     'cex': ['render2d'],
@@ -219,7 +219,7 @@ PLAN['C06'] = {
                     'C04 at the call site: RenderHandle::simplify returns a function that agrees with its parent on the traced box, and the parent keeps its function (cached child handles)',
                     'C01/C02 + C14 at the call site: the bulk evaluator returns, per sample, the function at that sample',
                     'pixel coordinates below 2^24 (f32 conversion exact); z is a number',
-                    'render_tiles / render (tile list, per-thread workers, assembly into the image) and voxel rendering are outside the unit'],
+                    'render_tiles (tile list, per-thread workers, cancellation): stand-in whose contract is one worker output per root tile of the image; TileSizesRef::new: stand-in returning a suffix of the tile-size list; usize is 64 bits'],
 }
 del NOT_APPLICABLE['C06']
 
